@@ -36,7 +36,8 @@ def case_strategy(draw):
         return {"kind": "after-actions", "text": c04.deck_text(c, False), "apps": c["apps"]}
     blocks = draw(MG.gen_schedule())
     unit = draw(st.sampled_from(["METRIC", "FIELD", "LAB"]))
-    return {"kind": "generated", "text": MG.render(blocks, unit)}
+    static = draw(MG.gen_static())
+    return {"kind": "generated", "text": MG.render(blocks, unit, static=static)}
 
 
 def first_diff(x, y, path=""):
@@ -129,7 +130,7 @@ class C11(Check):
         t = case["text"]
         labels = ["kind:" + case["kind"]]
         feats = 0
-        for kw, lab in (("UDQ\n", "UDQ"), ("ACTIONX\n", "ACTIONX"), ("WLIST\n", "WLIST"), ("GCONSALE\n", "GCONSALE"), ("BRANPROP\n", "network"),
+        for kw, lab in (("RPTSOL\n", "RPTSOL"), ("FIPVE", "RPTSOL-FIPVE"), ("RPTRST\n", "RPTRST"), ("UDQ\n", "UDQ"), ("ACTIONX\n", "ACTIONX"), ("WLIST\n", "WLIST"), ("GCONSALE\n", "GCONSALE"), ("BRANPROP\n", "network"),
                         ("WTEST\n", "WTEST"), ("GUIDERAT\n", "GUIDERAT"), ("WECON\n", "WECON"), ("GCONSUMP\n", "GCONSUMP"), ("TUNING\n", "TUNING")):
             if kw in t:
                 labels.append("has:" + lab)
